@@ -34,29 +34,74 @@ int xv_threw; uint64_t xv_clock, xv_rmw_old; _Bool xv_cas_ok;
 _Static_assert(XV_NEB * XV_EIC == 4 && NSLOT + XV_L + 1 <= 7, "object tables below are written for POOL == 4, NN <= 7");
 #define NN (NSLOT + XV_L + 1) /* heap nodes of NONTRIVIAL mode: one per possible item + the one `new node` returns */
 
+/* ------------------------------------------------------------------ storage modes: the five specialisations of vyukov_hash_map_traits,
+   each compiled from its own real text (the trait functions of the other modes are #if'ed out of lowered.h)
+     (default)  T  : traits<Key, Value, .., true, true>                   key cell = key,  value cell = value
+     -DXV_NT    N  : traits<Key, Value, .., false, *>                     key cell = hash, value cell -> node{pair<const Key, Value> data}
+     -DXV_TN    TN : traits<Key, Value, .., true, false>                  key cell = key,  value cell -> node{Value value}
+     -DXV_MT    MT : traits<Key, managed_ptr<Value,R>, .., true, true>    key cell = key,  value cell = Value* (object owned through reclaimer R)
+     -DXV_MN    MN : traits<Key, managed_ptr<Value,R>, .., false, true>   key cell = hash, value cell -> node{Key key; concurrent_ptr<Value> value} */
+#if defined(XV_NT) || defined(XV_MN)
+#define XV_KEYNODE 1          /* the key lives in a heap node, the key cell holds its hash */
+#endif
+#if defined(XV_NT) || defined(XV_TN) || defined(XV_MN)
+#define XV_NODE 1             /* the value cell is a concurrent_ptr to a heap node owned by the map */
+#endif
+#if defined(XV_MT) || defined(XV_MN)
+#define XV_MANAGED 1          /* the mapped value is a pointer to a user object that the map retires on erase */
+#endif
+#if !defined(XV_TN) && !defined(XV_MN)
+#define XV_NODE_PAIR 1        /* struct node has the layout of traits<.., false, *>::node */
+#endif
+#if !defined(XV_NODE) && !defined(XV_MANAGED)
+#define XV_MODE_T 1
+#endif
+
 /* ------------------------------------------------------------------ types */
 typedef uint64_t hash_t;      /* std::size_t */
 /* Key and Value are template parameters: the code under contract only copies them, compares keys with == and hashes keys.
    A 16-bit word has far more values than the <= 8 keys one run can tell apart, so it stands for any Key/Value type. */
 typedef uint16_t kkey_t;
-typedef uint16_t vval_t;
 uint16_t nondet_u16(void);
 #define nondet_key() nondet_u16()
+struct uobj { uint16_t payload; };      /* a Value object of the managed_ptr modes */
+#ifdef XV_MANAGED
+typedef struct uobj* vval_t;  /* value_type = Value* */
+#else
+typedef uint16_t vval_t;
 #define nondet_val() nondet_u16()
-#ifdef XV_NT
+#endif
+#ifdef XV_KEYNODE
 typedef hash_t kcell_t;       /* storage_key_type: std::atomic<hash_t> */
 #define nondet_kcell() nondet_u64()
 #else
 typedef kkey_t kcell_t;       /* storage_key_type: std::atomic<Key> */
 #define nondet_kcell() nondet_u16()
 #endif
+#if defined(XV_TN)
+struct node { vval_t value; };                                    /* traits<..,true,false>::node */
+#define NODE_VAL(n) ((n)->value)
+#elif defined(XV_MN)
+struct node { kkey_t key; vval_t value; };                        /* traits<Key, managed_ptr<..>, .., false, true>::node; value: concurrent_ptr<Value> */
+#define NODE_KEY(n) ((n)->key)
+#define NODE_VAL(n) ((n)->value)
+#else
 struct node { struct { kkey_t first; vval_t second; } data; };   /* traits<..,false,*>::node : std::pair<const Key, Value> data */
-typedef vval_t t_vcell;       /* TRIVIAL storage_value_type: std::atomic<Value> */
-typedef struct node* n_vcell; /* NONTRIVIAL storage_value_type: concurrent_ptr<node> */
+#define NODE_KEY(n) ((n)->data.first)
+#define NODE_VAL(n) ((n)->data.second)
+#endif
+typedef vval_t t_vcell;       /* TRIVIAL storage_value_type: std::atomic<Value>  (MT: concurrent_ptr<Value>) */
+typedef struct node* n_vcell; /* storage_value_type of the node modes: concurrent_ptr<node> */
 struct t_accessor { vval_t v; };
 struct n_accessor { struct node* guard; };     /* guard_ptr<node>: the reclaimer contracts are other units; here a raw pointer */
-#ifdef XV_NT
+struct mt_accessor { struct uobj* guard; };    /* guard_ptr<Value> */
+struct mn_accessor { struct node* node_guard; struct uobj* value_guard; };
+#if defined(XV_MN)
+typedef n_vcell vcell_t; typedef struct mn_accessor accessor;
+#elif defined(XV_NODE)
 typedef n_vcell vcell_t; typedef struct n_accessor accessor;
+#elif defined(XV_MT)
+typedef t_vcell vcell_t; typedef struct mt_accessor accessor;
 #else
 typedef t_vcell vcell_t; typedef struct t_accessor accessor;
 #endif
@@ -75,6 +120,7 @@ struct unlocker { _Bool enabled; bstate_t state; bucket_t* locked_bucket; };
 struct vhm g_map; block_t g_blk; bucket_t g_bk[NB]; extension_bucket g_eb[XV_NEB];
 extension_item g_it0, g_it1, g_it2, g_it3;                       /* POOL == 4: item p belongs to extension bucket p / XV_EIC, slot p % XV_EIC */
 struct node g_n0, g_n1, g_n2, g_n3, g_n4, g_n5, g_n6;            /* NN <= 7 */
+struct uobj g_u0, g_u1, g_u2, g_u3, g_u4, g_u5, g_u6;            /* managed_ptr modes: one Value object per possible item + the one being inserted */
 uintptr_t g_eb_base;          /* address of g_eb[0]; allocate_block rounds it up to a multiple of sizeof(extension_bucket) */
 bucket_t* g_B;                /* the bucket under test (= bucket hash(key) & mask) */
 /* the block do_grow allocates: twice the buckets, its own extension pool (all free) */
@@ -92,6 +138,17 @@ static int pool_index(const extension_item* x) {        /* POOL if not a pool it
 }
 static struct node* node_at(unsigned i) { for (unsigned j = 0; j < NN; ++j) if (i == j) return NODE_C(j); return 0; }
 static int node_index(const struct node* n) { for (int i = 0; i < NN; ++i) if (n == NODE_C(i)) return i; return NN; }
+#define UOBJ_C(i) ((i) == 0 ? &g_u0 : (i) == 1 ? &g_u1 : (i) == 2 ? &g_u2 : (i) == 3 ? &g_u3 : (i) == 4 ? &g_u4 : (i) == 5 ? &g_u5 : &g_u6)
+static struct uobj* uobj_at(unsigned i) { for (unsigned j = 0; j < NN; ++j) if (i == j) return UOBJ_C(j); return 0; }
+static int uobj_index(const struct uobj* u) { for (int i = 0; i < NN; ++i) if (u == UOBJ_C(i)) return i; return NN; }
+#ifdef XV_MANAGED
+#define nondet_val() uobj_at(nondet_uint() % NN)      /* some Value object, never null (erase of a null managed_ptr is a null dereference in every reclaimer) */
+#endif
+#ifdef XV_NODE
+#define nondet_vcell() node_at(nondet_uint() % NN)
+#else
+#define nondet_vcell() nondet_val()
+#endif
 
 /* ------------------------------------------------------------------ glue used by the lowered text */
 uint64_t __CPROVER_uninterpreted_hash(kkey_t);
@@ -108,6 +165,8 @@ uint64_t __CPROVER_uninterpreted_hash(kkey_t);
 #define XV_INIT_locked_bucket(self, e) ((self)->locked_bucket = (e), (self)->enabled = XV_UNLOCKER_ENABLED_DEFAULT)
 #define XV_INIT_v(self, e) ((self)->v = (e))
 #define XV_INIT_guard(self, e) ((self)->guard = (e))
+#define XV_INIT_node_guard(self, e) ((self)->node_guard = (e))
+#define XV_INIT_value_guard(self, e) ((self)->value_guard = (e))
 /* free_extension_item's pointer arithmetic: linear addresses over the extension bucket array */
 static uintptr_t xv_item_addr(extension_item* x) {
   for (int p = 0; p < POOL; ++p) if (x == POOL_ITEM_C(p))
@@ -125,22 +184,35 @@ static extension_bucket* xv_eb_at(uintptr_t a) {
 
 /* guard_ptr / new: stubs.  Ghost: which nodes were retired, how often; reclaim of an empty guard is a null dereference in every reclaimer */
 unsigned node_retired[NN]; unsigned retire_count; struct node* last_retired; _Bool reclaim_of_null; _Bool gp_may_throw;
+unsigned uobj_retired[NN]; unsigned uretire_count; struct uobj* last_uretired;        /* Value objects of the managed_ptr modes */
 static struct node* gp_make(struct node* p) { if (gp_may_throw && nondet_bool()) { xv_threw = XV_EXC_guard; return 0; } return p; }
-#define GP_make(p) gp_make(p)
+static struct uobj* ugp_make(struct uobj* p) { if (gp_may_throw && nondet_bool()) { xv_threw = XV_EXC_guard; return 0; } return p; }
+#define GP_make(p) _Generic((p), struct uobj*: ugp_make, default: gp_make)(p)
 #define GP_make_nothrow(p) (p)
 static void gp_reclaim(struct node** g) {
   if (*g == 0) { reclaim_of_null = 1; return; }
   int i = node_index(*g); if (i < NN) { if (node_retired[i] < 2) node_retired[i]++; }
   retire_count++; last_retired = *g; *g = 0;
 }
-#define GP_reclaim(g) gp_reclaim(&(g))
+static void ugp_reclaim(struct uobj** g) {
+  if (*g == 0) { reclaim_of_null = 1; return; }
+  int i = uobj_index(*g); if (i < NN) { if (uobj_retired[i] < 2) uobj_retired[i]++; }
+  uretire_count++; last_uretired = *g; *g = 0;
+}
+#define GP_reclaim(g) _Generic((g), struct uobj*: ugp_reclaim, default: gp_reclaim)(&(g))
 #define ACQUIRE_GUARD(cell, o) A_LOAD(cell, o)
 unsigned new_count; _Bool new_may_throw;
-static struct node* xv_new_node(kkey_t k, vval_t v) {
+static struct node* xv_new_node_common(void) {
   if (new_may_throw && nondet_bool()) { xv_threw = XV_EXC_std__bad_alloc; return 0; }
-  new_count++; NODE_C(NN - 1)->data.first = k; NODE_C(NN - 1)->data.second = v; node_retired[NN - 1] = 0; return NODE_C(NN - 1);
+  new_count++; node_retired[NN - 1] = 0; return NODE_C(NN - 1);
 }
+#if defined(XV_TN)
+static struct node* xv_new_node(vval_t v) { struct node* n = xv_new_node_common(); if (n) { n->value = v; } return n; }
+#define XV_NEW_NODE(v) xv_new_node(v)
+#else
+static struct node* xv_new_node(kkey_t k, vval_t v) { struct node* n = xv_new_node_common(); if (n) { NODE_KEY(n) = k; NODE_VAL(n) = v; } return n; }
 #define XV_NEW_NODE(k, v) xv_new_node((k), (v))
+#endif
 
 /* traits dispatch (compile-time storage mode) */
 static _Bool tk_compare_key(_Bool, kcell_t*, t_vcell*, kkey_t, hash_t, struct t_accessor*);
@@ -149,13 +221,41 @@ static void tk_acc_ctor(struct t_accessor* self, t_vcell* v_p, int order);
 static void nk_acc_ctor(struct n_accessor* self, n_vcell* v_p, int order);
 static kkey_t nk_acc_key(const struct n_accessor* self);
 static struct t_accessor tk_acc_make(t_vcell* v, int o) { struct t_accessor a; tk_acc_ctor(&a, v, o); return a; }   /* `accessor(v, order)` as an expression */
+#ifdef XV_NODE_PAIR
 static struct n_accessor nk_acc_make(n_vcell* v, int o) { struct n_accessor a; nk_acc_ctor(&a, v, o); return a; }
+#endif
 #define TK_ACC(v, o) tk_acc_make((v), (o))
 #define NK_ACC(v, o) nk_acc_make((v), (o))
 #define NK_ACC_key(a) nk_acc_key(&(a))
 #define NK_ACC_reset(a) nk_acc_reset(&(a))
 #define GP_reset(g) ((g) = 0)                 /* guard_ptr::reset */
-#ifdef XV_NT
+/* the three further modes: `accessor(v, order)` as an expression, member calls on an accessor */
+#if defined(XV_TN)
+static void tn_acc_ctor(struct n_accessor* self, n_vcell* v_p, int order);
+static struct n_accessor tn_acc_make(n_vcell* v, int o) { struct n_accessor a; tn_acc_ctor(&a, v, o); return a; }
+#elif defined(XV_MT)
+static void mt_acc_ctor(struct mt_accessor* self, t_vcell* v_p, int order);
+static struct mt_accessor mt_acc_make(t_vcell* v, int o) { struct mt_accessor a; mt_acc_ctor(&a, v, o); return a; }
+#elif defined(XV_MN)
+static void mn_acc_ctor(struct mn_accessor* self, n_vcell* v_p, int order);
+static kkey_t mn_acc_key(const struct mn_accessor* self);
+static struct mn_accessor mn_acc_make(n_vcell* v, int o) { struct mn_accessor a; mn_acc_ctor(&a, v, o); return a; }
+#endif
+#define TN_ACC(v, o) tn_acc_make((v), (o))
+#define MT_ACC(v, o) mt_acc_make((v), (o))
+#define MN_ACC(v, o) mn_acc_make((v), (o))
+#define TN_ACC_reset(a) tn_acc_reset(&(a))
+#define MT_ACC_reset(a) mt_acc_reset(&(a))
+#define MN_ACC_reset(a) mn_acc_reset(&(a))
+#define MN_ACC_key(a) mn_acc_key(&(a))
+#define UGP_get(g) (g)                        /* guard_ptr::get */
+#if defined(XV_MN)
+#define TRP(f) mn_##f
+#elif defined(XV_MT)
+#define TRP(f) mt_##f
+#elif defined(XV_TN)
+#define TRP(f) tn_##f
+#elif defined(XV_NT)
 #define TRP(f) nk_##f
 #else
 #define TRP(f) tk_##f
@@ -171,8 +271,12 @@ static struct n_accessor nk_acc_make(n_vcell* v, int o) { struct n_accessor a; n
 #define TR_reset(acc) TRP(reset)(&(acc))
 static accessor xv_acc_any(void) {
   accessor a;
-#ifdef XV_NT
+#if defined(XV_MN)
+  a.node_guard = node_at(nondet_uint()); a.value_guard = uobj_at(nondet_uint());
+#elif defined(XV_NODE)
   a.guard = node_at(nondet_uint());
+#elif defined(XV_MT)
+  a.guard = uobj_at(nondet_uint());
 #else
   a.v = nondet_val();
 #endif
@@ -180,13 +284,31 @@ static accessor xv_acc_any(void) {
 }
 static accessor xv_acc_empty(void) {
   accessor a;
-#ifdef XV_NT
+#if defined(XV_MN)
+  a.node_guard = 0; a.value_guard = 0;
+#elif defined(XV_NODE) || defined(XV_MT)
   a.guard = 0;
 #else
   a.v = nondet_val();      /* `value_type v;` default-initialised: indeterminate */
 #endif
   return a;
 }
+/* what an accessor names */
+#if defined(XV_MN)
+#define ACC_EQ(a, b) ((a).node_guard == (b).node_guard && (a).value_guard == (b).value_guard)
+#define ACC_NODE(a) ((a).node_guard)
+#define ACC_NAMES(a, cell, val) ((a).node_guard == (cell) && (a).value_guard == (val))
+#elif defined(XV_NODE)
+#define ACC_EQ(a, b) ((a).guard == (b).guard)
+#define ACC_NODE(a) ((a).guard)
+#define ACC_NAMES(a, cell, val) ((a).guard == (cell) && (a).guard != 0 && NODE_VAL((a).guard) == (val))
+#elif defined(XV_MT)
+#define ACC_EQ(a, b) ((a).guard == (b).guard)
+#define ACC_NAMES(a, cell, val) ((a).guard == (val))
+#else
+#define ACC_EQ(a, b) ((a).v == (b).v)
+#define ACC_NAMES(a, cell, val) ((a).v == (val))
+#endif
 #define XV_ACC_ANY xv_acc_any()
 #define XV_ACC_EMPTY xv_acc_empty()
 
